@@ -152,6 +152,10 @@ pub struct DrcpCase {
 }
 
 fn gen_lit(rng: &mut Rng) -> i32 {
+    if rng.chance(0.03) {
+        // the most negative code has no positive counterpart
+        return i32::MIN;
+    }
     let m = match rng.below(10) {
         0 => i32::MAX,
         1 => rng.range32(1_000_000, i32::MAX - 1),
